@@ -20,9 +20,6 @@ def contracts():
         c.verify = False
     lI, lR = T.list_of('I'), T.list_of('R')
     status_t = T.dict_of('U', 'Status', default=lambda: SC('S'))
-    cs.append(Contract(F, '_process_trans_SIS_Markov', verify=False, cases=[],
-                       note='only referenced as the handler of queued events here; its body is not under contract yet'))
-
     # ------------------------------------------------------------------ _process_rec_SIS_
     def rows2(s):
         n = s.times.n
@@ -72,6 +69,26 @@ def contracts():
                    so.xr_le(rtg, T_) if len(draws) == 2 else BoolVal(True),   # re-drawn from the end of the target's infectious period (memorylessness)
                    so.xr_le(t, T_), s.Q.tmax == old.Q.tmax)
 
+    def fn_general(old, s):
+        """the part of the postcondition that does not mention the draws (what a caller may rely on)"""
+        D = old.Q._Q_.esort.D
+        q0, q1 = old.Q._Q_, s.Q._Q_
+        rs, rtg = old.rec_time.val[old.source], old.rec_time.val[old.target]
+        t = so.to_xr(old.time)
+        e = q1.a[q0.n]
+        Tn = so.xr_fin(D.time(e))
+        no_event = And(H.same_list(q1, q0), s.Q.counter == old.Q.counter)
+        one_event = And(q1.n == q0.n + 1, H.extends(q1, q0), s.Q.counter == old.Q.counter + 1, D.counter(e) == old.Q.counter,
+                        D.kind(e) == K_T, D.has_src(e), D.src(e) == old.source, D.tgt(e) == old.target,
+                        so.xr_le(t, Tn), so.xr_le(rtg, Tn), so.xr_lt(Tn, rs), so.xr_lt(Tn, old.Q.tmax))
+        return And(Or(no_event, one_event), Implies(Not(so.xr_lt(rtg, rs)), no_event),
+                   s.Q.tmax == old.Q.tmax, s.rec_time.val == old.rec_time.val)
+
+    def fn_full_post(old, s, ret):
+        if s.has('caller_view'):
+            return fn_general(old, s)
+        return And(fn_post(old, s, ret), fn_general(old, s))
+
     def fn_requires(s):
         return And(so.xr_le(so.to_xr(s.time), s.rec_time.val[s.source]), s.Q._Q_.n >= 0)
 
@@ -86,7 +103,160 @@ def contracts():
         sites={('random.expovariate', 0): site_rate, ('random.expovariate', 1): site_rate},
         sites_strict=('random.expovariate', 'random.random', 'random.choice', 'random.sample'),
         local_sorts={'delay': 'XR', 'transmission_time': 'XR'},
-        ensures=fn_post))
+        ensures=fn_full_post))
+
+    # ------------------------------------------------------------------ _process_trans_SIS_Markov
+    K_R = H.KINDS['_process_rec_SIS_']
+    TRl = T.list_of(H.TR)
+
+    def rate_cb(label, arity):
+        """user / library rate function: a pure, non-negative function of its node arguments"""
+        def mk(run, name, **kw):
+            f = z3.Function('%s_%d' % (label, so.Mode.gen), *([so.U()] * arity + [R]))
+
+            def fn(run2, args, kws, lineno):
+                if len(args) != arity or kws or not all(z3.is_expr(a) and a.sort() == so.U() for a in args):
+                    raise Unsupported('rate function called with unexpected arguments (line %d)' % lineno)
+                run2.assume(f(*args) >= 0)
+                return f(*args)
+            cb = Callback(name, fn)
+            cb.zf = f
+            cb.modifies_args = []
+            return cb
+        return mk
+
+    def tr_cases():
+        base = dict(time=T.real, G=T.graph(), source=T.node, target=T.node, times=lR, S=lI, I=lI, Q=H.mk_queue, status=status_t,
+                    rec_time=T.dict_of('U', 'XR', default=lambda: so.xr_fin(fresh('tmin_minus_1', R))),
+                    infection_times=T.dict_of_lists('U', 'R'), recovery_times=T.dict_of_lists('U', 'R'), transmissions=TRl,
+                    trans_rate_fxn=rate_cb('trate', 2), rec_rate_fxn=rate_cb('rrate', 1))
+        return [Case('from-neighbour', base), Case('initial-infection', dict(base, source=T.none))]
+
+    def has_source(s):
+        return s.source is not NONE
+
+    def tr_requires(s):
+        c = [rows2(s), s.time >= s.times.last(), so.xr_lt(so.to_xr(s.time), s.Q.tmax), s.Q._Q_.n >= 0]
+        if has_source(s):
+            c.append(so.xr_le(so.to_xr(s.time), s.rec_time.val[s.source]))     # the event was scheduled before the source's recovery
+        return And(*c)
+
+    def new_events_ok(D, q1, lo, t, tgt, rec_new, tmax, G, src, rs, allow_own, own_done=None):
+        """every event queued since position lo is (a) the recovery of tgt at rec_new < tmax, (b) a transmission tgt -> neighbour
+        at a time in [t, rec_new), < tmax, or (c) the next attempt src -> tgt at a time in [t, recovery of src), < tmax"""
+        def ok(j):
+            e = q1.a[j]
+            Tn = so.xr_fin(D.time(e))
+            alts = []
+            if allow_own:
+                alts.append(And(D.kind(e) == K_R, Not(D.has_src(e)), D.tgt(e) == tgt, so.xr_eq(Tn, rec_new), so.xr_lt(rec_new, tmax)))
+                own = And(D.kind(e) == K_T, D.has_src(e), D.src(e) == tgt, G.adj(tgt, D.tgt(e)),
+                          so.xr_le(t, Tn), so.xr_lt(Tn, rec_new), so.xr_lt(Tn, tmax))
+                if own_done is not None:
+                    own = And(own, own_done(D.tgt(e)))
+                alts.append(own)
+            if src is not None:
+                alts.append(And(D.kind(e) == K_T, D.has_src(e), D.src(e) == src, D.tgt(e) == tgt,
+                                so.xr_le(t, Tn), so.xr_lt(Tn, rs), so.xr_lt(Tn, tmax)))
+            return Or(*alts) if alts else BoolVal(False)
+        return so.forall_idx(q1.n, ok, lo=lo)
+
+    def counters_ok(D, q1, lo, c0, c1):
+        return And(c1 >= c0, c1 - c0 == q1.n - lo,
+                   so.forall_idx(q1.n, lambda j: D.counter(q1.a[j]) == c0 + (j - lo), lo=lo))
+
+    def tr_post(old, s, ret):
+        D = old.Q._Q_.esort.D
+        q0, q1 = old.Q._Q_, s.Q._Q_
+        tgt, time = old.target, old.time
+        t = so.to_xr(time)
+        was_S = old.status.val[tgt] == SC('S')
+        src = old.source if has_source(old) else None
+        rs = old.rec_time.val[old.source] if src is not None else None
+        tmax = old.Q.tmax
+        it0, it1 = old.infection_times, s.infection_times
+        rec_new = s.rec_time.val[tgt]
+        frame_lists = lambda: And(H.same_list(s.times, old.times), H.same_list(s.S, old.S), H.same_list(s.I, old.I),
+                                  H.same_list(s.transmissions, old.transmissions), s.status.val == old.status.val,
+                                  s.rec_time.val == old.rec_time.val,
+                                  so.forall(so.U(), lambda x: And(it1.lens[x] == it0.lens[x], it1.vals[x] == it0.vals[x])))
+        common = And(s.Q.tmax == tmax, H.extends(q1, q0), counters_ok(D, q1, q0.n, old.Q.counter, s.Q.counter),
+                     so.forall(so.U(), lambda x: And(s.recovery_times.lens[x] == old.recovery_times.lens[x],
+                                                     s.recovery_times.vals[x] == old.recovery_times.vals[x])))
+        infected = And(
+            s.status.val == z3.Store(old.status.val, tgt, SC('I')),
+            H.appended(s.times, old.times, time), H.appended(s.S, old.S, old.S.last() - 1), H.appended(s.I, old.I, old.I.last() + 1),
+            rows2(s),
+            H.appended(s.transmissions, old.transmissions, old.transmissions.esort.pack((time, old.source, tgt))),
+            so.forall(so.U(), lambda x: Implies(x != tgt, s.rec_time.val[x] == old.rec_time.val[x])),
+            so.xr_le(t, rec_new),
+            it1.lens[tgt] == it0.lens[tgt] + 1, it1.vals[tgt][it0.lens[tgt]] == time,
+            so.forall_idx(it0.lens[tgt], lambda j: it1.vals[tgt][j] == it0.vals[tgt][j]),
+            so.forall(so.U(), lambda x: Implies(x != tgt, And(it1.lens[x] == it0.lens[x], it1.vals[x] == it0.vals[x]))),
+            new_events_ok(D, q1, q0.n, t, tgt, rec_new, tmax, old.G, src, rs, True),
+            # the recovery is queued iff it happens before tmax, and only once
+            so.xr_lt(rec_new, tmax) == so.exists_idx(q1.n, lambda j: D.kind(q1.a[j]) == K_R, lo=q0.n),
+            so.forall_idx(q1.n, lambda j: Implies(D.kind(q1.a[j]) == K_R, j == q0.n), lo=q0.n))
+        not_infected = And(frame_lists(), new_events_ok(D, q1, q0.n, t, tgt, rec_new, tmax, old.G, src, rs, False), q1.n <= q0.n + 1)
+        # the attempt chain source -> target is continued exactly once, whether or not the target got infected (memorylessness
+        # makes the re-draw exact; dropping it would silence the source towards this neighbour for the rest of its period)
+        chain = BoolVal(True)
+        if src is not None and not s.has('caller_view'):
+            n_src_calls = sum(1 for c in s.run.call_log if c[0] == '_find_next_trans_SIS_Markov' and c[1] == 1)
+            chain = BoolVal(n_src_calls == 1)
+        return And(common, chain, If(was_S, infected, not_infected))
+
+    def tr_loop_inv(s, it):
+        """for v in G.neighbors(target): _find_next_trans_SIS_Markov(... target, v ...)"""
+        D = s.Q._Q_.esort.D
+        q0, q1 = it.entry.Q._Q_, s.Q._Q_
+        tgt = s.target
+        t = so.to_xr(s.time)
+        rec_new = s.rec_time.val[tgt]
+        return And(s.Q.tmax == it.entry.Q.tmax, H.extends(q1, q0), counters_ok(D, q1, q0.n, it.entry.Q.counter, s.Q.counter),
+                   s.rec_time.val == it.entry.rec_time.val, so.xr_le(t, rec_new),
+                   so.forall_idx(q1.n, lambda j: And(
+                       D.kind(q1.a[j]) == K_T, D.has_src(q1.a[j]), D.src(q1.a[j]) == tgt, s.G.adj(tgt, D.tgt(q1.a[j])), it.done(D.tgt(q1.a[j])),
+                       so.xr_le(t, so.xr_fin(D.time(q1.a[j]))), so.xr_lt(so.xr_fin(D.time(q1.a[j])), rec_new),
+                       so.xr_lt(so.xr_fin(D.time(q1.a[j])), s.Q.tmax)), lo=q0.n))
+
+    EV_ORDER = ['G', None, None, 'times', 'S', 'I', 'Q', 'status', 'rec_time', 'infection_times', 'recovery_times', 'transmissions',
+                'trans_rate_fxn', 'rec_rate_fxn']
+
+    def mk_call_hook(which):
+        def hook(s, b):
+            """what the handler hands to _find_next_trans_SIS_Markov: the shared state by identity, the pair it is about, the
+            pair's transmission rate, and event arguments that bind onto the handler's own signature"""
+            tea = b.get('trans_event_args')
+            if not (isinstance(tea, tuple) and len(tea) == len(EV_ORDER)):
+                return BoolVal(False)
+            for nm, a in zip(EV_ORDER, tea):
+                if nm is not None and a is not getattr(s, nm):
+                    return BoolVal(False)
+            for nm in ('Q', 'status', 'rec_time'):
+                if b.get(nm) is not getattr(s, nm):
+                    return BoolVal(False)
+            src_b, tgt_b = b.get('source'), b.get('target')
+            if not (z3.is_expr(src_b) and z3.is_expr(tgt_b) and z3.is_expr(tea[1]) and z3.is_expr(tea[2])):
+                return BoolVal(False)
+            want_src, want_tgt = (s.target, s.v) if which == 0 else (s.source, s.target)
+            rate = s.trans_rate_fxn.zf(want_src, want_tgt)
+            return And(src_b == want_src, tgt_b == want_tgt, tea[1] == want_src, tea[2] == want_tgt,
+                       so.to_xr(b.get('time')) == so.to_xr(s.time), b.get('tau') == rate)
+        return hook
+
+    def site_rec_rate(s, info):
+        return info['rate'] == s.rec_rate_fxn.zf(s.target)
+
+    cs.append(Contract(F, '_process_trans_SIS_Markov',
+        cases=tr_cases(), axioms=lambda s: so.cnt_axioms(so.U(), so.Status()), requires=tr_requires,
+        modifies=['times', 'S', 'I', 'Q', 'status', 'rec_time', 'infection_times', 'transmissions'],
+        loops={0: LoopSpec(tr_loop_inv, body_calls={'_find_next_trans_SIS_Markov': 1})},
+        sites={('random.expovariate', 0): site_rec_rate,
+               ('call:_find_next_trans_SIS_Markov', 0): mk_call_hook(0), ('call:_find_next_trans_SIS_Markov', 1): mk_call_hook(1)},
+        sites_strict=('random.expovariate', 'random.random', 'random.choice', 'random.sample'),
+        must_raise=lambda old: And(old.status.val[old.target] == SC('S'), old.rec_rate_fxn.zf(old.target) < 0),
+        ensures=tr_post))
     return cs
 
 
